@@ -4,6 +4,7 @@ import (
 	"encoding/json"
 	"fmt"
 	"strings"
+	"sync"
 	"testing"
 
 	"github.com/Breeze0806/gobinlog"
@@ -281,6 +282,33 @@ func checkCut(c *CutCase) (int, int, error) {
 	return before, len(exp), compareTxs(st.got, exp[:before], false)
 }
 
+// ParallelCase: several unit sequences streamed at the same time by separate
+// streamers in one process.
+type ParallelCase struct {
+	Seqs     [][]int
+	Variants []int
+	Pacing   int
+}
+
+func checkParallel(c *ParallelCase) error {
+	errs := make([]error, len(c.Seqs))
+	var wg sync.WaitGroup
+	for i := range c.Seqs {
+		wg.Add(1)
+		go func(i int) {
+			defer wg.Done()
+			errs[i] = checkSeq(SeqCase{Seq: c.Seqs[i], Variant: c.Variants[i], Pacing: 0})
+		}(i)
+	}
+	wg.Wait()
+	for i, err := range errs {
+		if err != nil {
+			return fmt.Errorf("stream %d of %d running in parallel: %v", i, len(c.Seqs), err)
+		}
+	}
+	return nil
+}
+
 func checkSeq(c SeqCase) error {
 	e := &E2ECase{H: seqHistory(c.Seq, c.Variant), Pacing: c.Pacing}
 	_, _, err := checkBoundaries(e, true)
@@ -302,6 +330,19 @@ func init() {
 		}
 		_, _, err := checkBoundaries(&c, false)
 		return err
+	})
+	registerReplay("c02par", func(raw json.RawMessage) error {
+		var c ParallelCase
+		if err := json.Unmarshal(raw, &c); err != nil {
+			return err
+		}
+		// a schedule-dependent failure may need several tries
+		for i := 0; i < 20; i++ {
+			if err := checkParallel(&c); err != nil {
+				return err
+			}
+		}
+		return nil
 	})
 	registerReplay("c02cut", func(raw json.RawMessage) error {
 		var c CutCase
@@ -455,6 +496,48 @@ func TestC02(t *testing.T) {
 			rec.Case(inside && before >= 1 && total >= 2, c, cls...)
 			if err != nil {
 				rec.Violation("c02cut", c, "", err)
+				rt.Fatalf("C02 violation: %v", err)
+			}
+			return
+		}
+		switch rapid.IntRange(0, 7).Draw(rt, "part_special") {
+		case 0:
+			// (5) a unit is refused by the handler (or the stream is cut) and the SAME streamer tries again:
+			// every change must then be delivered in exactly one accepted transaction, not twice inside one
+			c := &FaultCase{H: gen.History(rt, o)}
+			e := E2ECase{H: c.H}
+			l, start, su, err := e.layout()
+			if err != nil {
+				rt.Skip(err.Error())
+			}
+			payloads, _, _ := l.Served(start.File, start.Off)
+			ntx := len(l.Expected(start, su))
+			for i, n := 0, rapid.IntRange(1, 2).Draw(rt, "retries"); i < n; i++ {
+				c.Attempts = append(c.Attempts, AttemptSpec{Fault: drawFault(rt, []string{"handler_err", "handler_err", "fin", "eof", "cancel_in"}, len(payloads)+1, ntx), Pacing: rapid.IntRange(0, 1).Draw(rt, "pacing")})
+			}
+			journal("C02", "c04", c)
+			nt, err := checkC04(c)
+			rec.Case(nt, c, "retry-on-same-streamer")
+			if err != nil {
+				rec.Violation("c04", c, "", err)
+				rt.Fatalf("C02 violation: %v", err)
+			}
+			return
+		case 1:
+			// (6) several streamers parse in parallel in one process: grouping must not depend on it
+			c := &ParallelCase{Pacing: rapid.IntRange(0, 1).Draw(rt, "pacing")}
+			for i, n := 0, rapid.IntRange(2, 4).Draw(rt, "nstreams"); i < n; i++ {
+				ln := rapid.IntRange(20, 120).Draw(rt, "par_len")
+				seq := make([]int, ln)
+				for j := range seq {
+					seq[j] = rapid.SampledFrom([]int{0, 1, 2, 3, 4, 5, 6, 13}).Draw(rt, "par_sym")
+				}
+				c.Seqs = append(c.Seqs, seq)
+				c.Variants = append(c.Variants, rapid.IntRange(0, 15).Draw(rt, "par_variant"))
+			}
+			rec.Case(true, c, "parallel-streamers")
+			if err := checkParallel(c); err != nil {
+				rec.Violation("c02par", c, "", err)
 				rt.Fatalf("C02 violation: %v", err)
 			}
 			return
